@@ -22,7 +22,10 @@ constexpr auto wmemcpy(wchar_t* dest, wchar_t const* src, etl::size_t count) noe
     if (count == 0) {
         return dest;
     }
-    return etl::detail::strncpy(dest, src, count);
+    for (etl::size_t i = 0; i != count; ++i) {
+        dest[i] = src[i];
+    }
+    return dest;
 #endif
 }
 
